@@ -30,11 +30,13 @@ def oracle(line: str, obs: Obs):
     for ev, lines in obs.blocks:
         t = ev.split(" ")
         before = dict(state)
-        if t[0] == "adv":
+        if t[0] in ("adv", "advrx"):
             now += int(t[1])
         if t[0] == "rx":
             c = f"c{t[1]}"
             last_read[c] = now
+        if t[0] == "advrx":
+            last_read[f"c{t[2]}"] = now
         dwrs = {}
         for l in lines:
             if l.startswith("OUT "):
@@ -50,8 +52,10 @@ def oracle(line: str, obs: Obs):
         if t[0] == "acc" and not (set(state) - set(before)):
             fails.append({"what": "a connection arriving at the listening socket is not taken up any more (no watchdog can ever "
                                   "run on it)", "event": ev, "real": "no new connection after accept"})
-        if t[0] in ("adv", "tick"):
+        if t[0] in ("adv", "tick", "advrx"):
             for c, st in before.items():
+                if t[0] == "advrx" and c == f"c{t[2]}":
+                    continue            # (the connection that is being read: judged at the next timer check)
                 n = dwrs.get(c, 0)
                 if st == "READY":
                     due = now - last_read.get(c, now) > idle
@@ -69,7 +73,9 @@ def oracle(line: str, obs: Obs):
                         fails.append({"what": "second DWR sent while awaiting the DWA", "event": ev, "real": f"dwr={n}"})
                     late = now - last_dwr.get(c, now) > dwa
                     closed = state.get(c) == "CLOSED"
-                    reason = next((kv(l)["reason"] for l in lines if l.startswith("PEER ")), "-")
+                    owner = next((kv(l).get("name") for l in lines if l.startswith(f"CONN {c} ")), None)
+                    reason = next((kv(l)["reason"] for l in lines if l.startswith("PEER ") and l.split(" ")[1] == owner),
+                                  next((kv(l)["reason"] for l in lines if l.startswith("PEER ")), "-"))
                     if late != closed or (closed and reason != "DWATO"):
                         fails.append({"what": f"connection awaiting a DWA for {now - last_dwr.get(c, now)} s (timeout {dwa} s): "
                                               f"expected {'closed with the watchdog-timeout reason' if late else 'still open'}",
@@ -150,6 +156,15 @@ def scenarios(rng: random.Random, tier: str):
                "rx 1 " + nodegen.cer("peer1.x", "4", nxt(), nxt()), f"adv {idle + 1}", "rx 1 " + nodegen.dwa(nxt(), nxt()),
                f"adv {idle + 1}", f"adv {dwa + 1}", "acc", "rx 2 " + nodegen.cer("peer1.x", "4", nxt(), nxt()), f"adv {idle + 1}"]
         out.append(line + " | " + " | ".join(evs))
+    # two connections: one keeps talking (every read finds the clock advanced, no pass without a ready socket), the other is
+    # silent: it gets its DWR when its idle timeout has passed and is given up when no DWA comes
+    two_cfg = ("NODE host=node.local;realm=realm.local;idle={i};dwa={d};cer=50;cea=50;"
+               "peer:peer1.x,realm.local,0,0,99,1,0,-,-,-,-;peer:peer2.x,realm.local,0,0,99,1,0,-,-,-,-;app:4,1,0,b,0,0+1,-")
+    for idle, dwa in ((2, 2), (3, 1), (1, 3)):
+        evs = ["start", "acc", "rx 0 " + nodegen.cer("peer1.x", "4", nxt(), nxt()), "acc", "rx 1 " + nodegen.cer("peer2.x", "4", nxt(), nxt())]
+        for _k in range(idle + dwa + 3):
+            evs.append("advrx 1 0 " + nodegen.dwr(nxt(), nxt(), "peer1.x"))
+        out.append(two_cfg.format(i=idle, d=dwa) + " | " + " | ".join(evs))
     # a request is sent over the connection while its DWA is outstanding; the DWA then arrives in time
     for idle, dwa in ((2, 3), (3, 5)):
         line = cfg_line(idle, dwa)
